@@ -8,26 +8,30 @@ import signal
 TOKEN_MENU = ["", "abc", "-", "1e999", "99999999999", "*****", "nan", "MULT1000"]
 
 
-class Timeout(Exception):
+class Timeout(BaseException):  # not an Exception: the API wrappers translate every Exception into LoadError
     pass
 
 
 class watchdog:
-    """SIGALRM based time limit (main thread of the worker process)."""
+    """CPU-time limit (ITIMER_PROF -> SIGPROF, main thread of the worker process).
+
+    CPU time rather than wall-clock time: an endless loop burns CPU and is caught, while a machine that is busy with
+    other work cannot make a healthy load look like a hang.
+    """
 
     def __init__(self, seconds):
-        self.seconds = max(1, int(seconds))
+        self.seconds = max(1.0, float(seconds))
 
     def __enter__(self):
         def handler(signum, frame):
             raise Timeout()
 
-        self._old = signal.signal(signal.SIGALRM, handler)
-        signal.alarm(self.seconds)
+        self._old = signal.signal(signal.SIGPROF, handler)
+        signal.setitimer(signal.ITIMER_PROF, self.seconds)
 
     def __exit__(self, *exc):
-        signal.alarm(0)
-        signal.signal(signal.SIGALRM, self._old)
+        signal.setitimer(signal.ITIMER_PROF, 0)
+        signal.signal(signal.SIGPROF, self._old)
         return False
 
 
